@@ -89,7 +89,9 @@ def prop_text(p):
 os.makedirs(out, exist_ok=True)
 # pair properties that live in different modules, so that an agent does not reuse one idea twice
 order = ['C01', 'C11', 'C02', 'C12', 'C03', 'C13', 'C04', 'C14', 'C05', 'C15', 'C06', 'C16', 'C07', 'C17', 'C08', 'C18', 'C09', 'C19', 'C10', 'C20']
-if PLAIN:
+if PLAIN and os.environ.get('PAIRING') == '2':
+    order = ['C01', 'C14', 'C02', 'C17', 'C03', 'C19', 'C04', 'C20', 'C05', 'C09', 'C06', 'C10', 'C07', 'C12', 'C08', 'C13', 'C11', 'C16', 'C15', 'C18']
+elif PLAIN:
     order = ['C01', 'C08', 'C02', 'C09', 'C03', 'C10', 'C04', 'C11', 'C05', 'C12', 'C06', 'C13', 'C07', 'C14', 'C15', 'C18', 'C16', 'C19', 'C17', 'C20']
 by = {p['id']: p for p in props}
 for i in range(10):
